@@ -45,6 +45,28 @@ Proof.
 Qed.
 Lemma uc_off_le s e : (uc_off s e <= length s)%nat.
 Proof. apply uc_off_f_le. Qed.
+Lemma firstn_S_nth {A} (l : list A) i d : (i < length l)%nat -> firstn (S i) l = firstn i l ++ [nth i l d].
+Proof.
+  revert l; induction i as [|i IH]; intros [|x l] H; cbn [length] in H; try lia; [reflexivity|].
+  cbn [firstn nth app]. f_equal. apply IH. lia.
+Qed.
+Lemma skipn_nth_cons {A} (l : list A) i d : (i < length l)%nat -> skipn i l = nth i l d :: skipn (S i) l.
+Proof.
+  revert l; induction i as [|i IH]; intros [|x l] H; cbn [length] in H; try lia; [reflexivity|].
+  cbn [skipn nth]. apply IH. lia.
+Qed.
+Lemma uc_chr_le s off q : uc_chr s off = Some q -> (q <= length s)%nat.
+Proof.
+  unfold uc_chr. generalize (length s) at 1. intros f.
+  assert (G : forall f t i base q, uc_chr_f f t i off base = Some q -> (q <= base + length t)%nat).
+  { clear. induction f as [|f IH]; intros t i base q; destruct t as [|x t]; cbn [uc_chr_f].
+    - destruct (_ || _); [|discriminate]. intros [= <-]. cbn; lia.
+    - destruct (i =? off)%Z; [|discriminate]. intros [= <-]. lia.
+    - destruct (_ || _); [|discriminate]. intros [= <-]. cbn; lia.
+    - destruct (i =? off)%Z; [intros [= <-]; lia|]. intro H. apply IH in H. rewrite skipn_length in H.
+      pose proof (uc_end_lt (x :: t) ltac:(discriminate)). unfold uc_next in H. destruct (nthb (x :: t) (uc_end (x :: t)) =? 0)%N; cbn [length] in *; lia. }
+  intro H. apply G in H. lia.
+Qed.
 Lemma store_one (m : mem) g (v w : val) : nth_error m g = Some [v] -> store m g 0 w = Ok (upd m g [w]).
 Proof. intro H. rewrite (store_ok m g [v]); [reflexivity|exact H|cbn; lia]. Qed.
 Lemma load_two0 (m : mem) g (a b : val) : nth_error m g = Some [a; b] -> load m g 0 = Ok a.
@@ -148,7 +170,7 @@ Section Scan.
   Variables (lb bln : nat) (lbs : list nat) (lines : list bytes).
   Variables (boffs br bo bl : nat).
   Variables (kwv : val) (rb : nat) (ro : Z).
-  Notation rev := (VPtr rb ro).
+  Notation rep := (VPtr rb ro).
   Variable find : bytes -> bool -> option (nat * nat).
   Variables (dir : Z) (r0 o0 : nat).
 
@@ -167,7 +189,7 @@ Section Scan.
 
   Hypothesis HR : lbuf_at m1 lb bln lbs lines.
   Hypothesis Hsm : lines_small lines.
-  Hypothesis HF : (length lines + maxlen lines + 3 < F)%nat.
+  Hypothesis HF : (length lines + maxlen lines + 4 < F)%nat.
   Hypothesis Hfit : lines_fit lines.
   Hypothesis Hwf : find_wf find.
   Hypothesis Hdir : dir_ok dir.
@@ -182,10 +204,10 @@ Section Scan.
     forall m c r o vl i off, smem m c r o vl -> length c = 2%nat -> (i < length lines)%nat -> (off <= length (nthl lines i))%nat ->
     match find (skipn off (nthl lines i)) (negb (off =? 0)%nat) with
     | Some (b, e) => exists rv, 0 <= rv /\
-        cx F_rstr_find [rev; VPtr (nth i lbs O) (Z.of_nat off); VInt 1; VPtr boffs 0; VInt (if (off =? 0)%nat then 0 else 2)] m
+        cx F_rstr_find [rep; VPtr (nth i lbs O) (Z.of_nat off); VInt 1; VPtr boffs 0; VInt (if (off =? 0)%nat then 0 else 2)] m
         = Ok (VInt rv, upd m boffs [VInt (Z.of_nat b); VInt (Z.of_nat e)])
     | None => exists rv c', rv < 0 /\ length c' = 2%nat /\
-        cx F_rstr_find [rev; VPtr (nth i lbs O) (Z.of_nat off); VInt 1; VPtr boffs 0; VInt (if (off =? 0)%nat then 0 else 2)] m
+        cx F_rstr_find [rep; VPtr (nth i lbs O) (Z.of_nat off); VInt 1; VPtr boffs 0; VInt (if (off =? 0)%nat then 0 else 2)] m
         = Ok (VInt rv, upd m boffs c')
     end.
   Hypothesis Hfind : find_ans.
@@ -269,7 +291,7 @@ Section Scan.
   (* the locals of lbuf_search inside the row loop *)
   Definition lst (i found : Z) (sv voff vbeg : val) : list val :=
     [VPtr lb 0; kwv; VInt dir; VPtr br 0; VPtr bo 0; VPtr bl 0; VPtr boffs 0; VInt found;
-     VInt (Z.of_nat r0); VInt (Z.of_nat o0); VInt i; rev; sv; voff; vbeg].
+     VInt (Z.of_nat r0); VInt (Z.of_nat o0); VInt i; rep; sv; voff; vbeg].
 
   (* "beg > 0 && !s[beg] && s[beg - 1] == '\n'" is the model's phantom *)
   Lemma ph_ok m c r o vl i found off beg : smem m c r o vl -> (i < length lines)%nat -> (beg <= length (nthl lines i))%nat ->
@@ -429,7 +451,7 @@ Section Scan.
     end.
   Proof.
     intros S Hc Hi Hoff l. pose proof (Hfind m c r o vl i off S Hc Hi Hoff) as HA. unfold fm_of.
-    assert (E : forall rv c', cx F_rstr_find [rev; VPtr (nth i lbs O) (Z.of_nat off); VInt 1; VPtr boffs 0; VInt (if (off =? 0)%nat then 0 else 2)] m
+    assert (E : forall rv c', cx F_rstr_find [rep; VPtr (nth i lbs O) (Z.of_nat off); VInt 1; VPtr boffs 0; VInt (if (off =? 0)%nat then 0 else 2)] m
                               = Ok (VInt rv, upd m boffs c') ->
                 eval cx srch_cond (mkst l m) = Ok (VInt (b2z (0 <=? rv)), mkst l (upd m boffs c'))).
     { intros rv c' H. open_sb srch_cond. unfold l, lst. xstep.
@@ -507,5 +529,170 @@ Section Scan.
   Proof.
     intros Hd Hi f off acc res m c fuel vbeg Hres. apply (while_ok i r o vl Hi f off acc res m c fuel vbeg).
     unfold lim_of, fwd. rewrite Hd. change (0 <? -1) with false. rewrite row_loop_bwd. exact Hres.
+  Qed.
+
+  (* ------------------------------------------------------------------ piece (3): the row loop, no wrap *)
+  Lemma x_lbuf_len m c r o vl : smem m c r o vl -> cx F_lbuf_len [VPtr lb 0] m = Ok (VInt (Z.of_nat (length lines)), m).
+  Proof.
+    intro S. apply callx_mono. rewrite (tr_lbuf_len m lb bln lbs lines _ F (smem_rep _ _ _ _ _ S) Hsm).
+    unfold MotDefs.blen. rewrite map_length. reflexivity.
+  Qed.
+  Lemma x_lbuf_get m c r o vl i : smem m c r o vl -> (i < length lines)%nat ->
+    cx F_lbuf_get [VPtr lb 0; VInt (Z.of_nat i)] m = Ok (VPtr (nth i lbs O) 0, m).
+  Proof.
+    intros S Hi. apply callx_mono. rewrite (tr_lbuf_get m lb bln lbs lines _ _ F (smem_rep _ _ _ _ _ S) Hsm).
+    unfold line_ptr, rowidx. destruct (Z.leb_spec 0 (Z.of_nat i)); [|lia].
+    destruct (Z.ltb_spec (Z.of_nat i) (Z.of_nat (length lines))); [|lia]. cbn [andb]. rewrite Nat2Z.id. reflexivity.
+  Qed.
+
+  (* the loop condition  !found && i >= 0 && i < lbuf_len(lb) *)
+  Lemma for_cond_found m i sv voff vbeg :
+    eval cx for_cond (mkst (lst i 1 sv voff vbeg) m) = Ok (VInt 0, mkst (lst i 1 sv voff vbeg) m).
+  Proof. open_sb for_cond. unfold lst. xstep. reflexivity. Qed.
+  Lemma for_cond_0 m c r o vl i sv voff vbeg : smem m c r o vl ->
+    eval cx for_cond (mkst (lst i 0 sv voff vbeg) m)
+    = Ok (VInt (b2z ((0 <=? i) && (i <? Z.of_nat (length lines)))), mkst (lst i 0 sv voff vbeg) m).
+  Proof.
+    intro S. open_sb for_cond. unfold lst. xstep. destruct (0 <=? i); xstep; [|reflexivity].
+    rewrite (x_lbuf_len m c r o vl S). xstep. destruct (i <? Z.of_nat (length lines)); reflexivity.
+  Qed.
+  Lemma for_exit_found m i sv voff vbeg fuel :
+    exec cx (S fuel) srch_for (mkst (lst i 1 sv voff vbeg) m) = ONormal (mkst (lst i 1 sv voff vbeg) m).
+  Proof. rewrite for_eq, exec_for. cbn [eval_opt]. rewrite for_cond_found. reflexivity. Qed.
+  Lemma for_exit_range m c r o vl i sv voff vbeg fuel : smem m c r o vl -> (i < 0 \/ Z.of_nat (length lines) <= i) ->
+    exec cx (S fuel) srch_for (mkst (lst i 0 sv voff vbeg) m) = ONormal (mkst (lst i 0 sv voff vbeg) m).
+  Proof.
+    intros S Hi. rewrite for_eq, exec_for. cbn [eval_opt]. rewrite (for_cond_0 m c r o vl _ _ _ _ S), truth_b2z.
+    destruct (Z.leb_spec 0 i); destruct (Z.ltb_spec i (Z.of_nat (length lines))); try lia; reflexivity.
+  Qed.
+  (* s = lbuf_get(lb, i) *)
+  Lemma get_ok m c r o vl i found sv voff vbeg fuel : smem m c r o vl -> (i < length lines)%nat ->
+    exec cx fuel sb_get (mkst (lst (Z.of_nat i) found sv voff vbeg) m)
+    = ONormal (mkst (lst (Z.of_nat i) found (VPtr (nth i lbs O) 0) voff vbeg) m).
+  Proof. intros S Hi. open_sb sb_get. unfold lst. xstep. rewrite (x_lbuf_get m c r o vl i S Hi). xstep. reflexivity. Qed.
+  (* i += dir *)
+  Lemma step_ok m i found sv voff vbeg : -2147483647 <= i <= 2147483646 ->
+    eval cx for_step (mkst (lst i found sv voff vbeg) m)
+    = Ok (VInt (i + dir), mkst (lst (i + dir) found sv voff vbeg) m).
+  Proof. intro Hi. open_sb for_step. unfold lst. xstep. rewrite chk_I32 by (destruct Hdir as [-> | ->]; lia). xstep. reflexivity. Qed.
+
+  (* forward: row i, then the rows after it; the cursor row is scanned from the byte after the cursor character *)
+  Lemma fwd_for_ok off0 : dir = 1 ->
+    ((r0 < length lines)%nat -> uc_chr (nthl lines r0) (Z.of_nat o0 + 1) = Some off0) ->
+    forall n i m c r o vl fuel sv voff vbeg,
+    (length lines - i <= n)%nat -> (r0 <= i)%nat -> (n + maxlen lines + 3 < fuel)%nat -> length c = 2%nat -> smem m c r o vl ->
+    exists m' c' i' found' sv' voff' vbeg',
+      exec cx fuel srch_for (mkst (lst (Z.of_nat i) 0 sv voff vbeg) m) = ONormal (mkst (lst i' found' sv' voff' vbeg') m') /\
+      length c' = 2%nat /\
+      match fwd_rows (fm_of find) (skipn i lines) i (if (i =? r0)%nat then off0 else 0%nat) with
+      | SFound rr oo ll => found' = 1 /\ smem m' c' (Z.of_nat rr) (Z.of_nat oo) (VInt (Z.of_nat ll))
+      | SNotFound => found' = 0 /\ smem m' c' r o vl
+      | _ => False
+      end.
+  Proof.
+    intros Hd Hoff0. pose proof Hsm as [Hsm1 _].
+    assert (Hout_range : forall i m c r o vl fuel sv voff vbeg, (length lines <= i)%nat -> length c = 2%nat -> smem m c r o vl ->
+      exists m' c' i' found' sv' voff' vbeg',
+        exec cx (Datatypes.S fuel) srch_for (mkst (lst (Z.of_nat i) 0 sv voff vbeg) m) = ONormal (mkst (lst i' found' sv' voff' vbeg') m') /\
+        length c' = 2%nat /\
+        match fwd_rows (fm_of find) (skipn i lines) i (if (i =? r0)%nat then off0 else 0%nat) with
+        | SFound rr oo ll => found' = 1 /\ smem m' c' (Z.of_nat rr) (Z.of_nat oo) (VInt (Z.of_nat ll))
+        | SNotFound => found' = 0 /\ smem m' c' r o vl
+        | _ => False
+        end).
+    { intros i m c r o vl fuel sv voff vbeg Hi Hc S. rewrite (for_exit_range m c r o vl _ _ _ _ _ S) by lia.
+      rewrite skipn_all2 by lia. cbn [fwd_rows]. do 7 eexists. split; [reflexivity|]. split; [exact Hc|]. split; [reflexivity|exact S]. }
+    induction n as [|n IH]; intros i m c r o vl fuel sv voff vbeg Hn Hri Hf Hc S; (destruct fuel as [|fuel]; [lia|]).
+    { apply (Hout_range i m c r o vl fuel sv voff vbeg); try assumption; lia. }
+    destruct (Nat.lt_ge_cases i (length lines)) as [Hi|Hi]; [|apply (Hout_range i m c r o vl fuel sv voff vbeg); assumption].
+    set (s := nthl lines i). set (sb := nth i lbs O).
+    destruct (line_facts m c r o vl i S Hi) as (Hs & Hnn & HFs & Hmax & _). fold s sb in Hs, Hnn, HFs, Hmax.
+    set (first := if (i =? r0)%nat then off0 else 0%nat).
+    assert (Hfirst : (first <= length s)%nat).
+    { unfold first. destruct (Nat.eqb_spec i r0) as [->|_]; [|lia]. apply (uc_chr_le _ _ _ (Hoff0 Hi)). }
+    rewrite for_eq, exec_for. cbn [eval_opt]. rewrite (for_cond_0 m c r o vl _ _ _ _ S), truth_b2z.
+    destruct (Z.leb_spec 0 (Z.of_nat i)); [|lia]. destruct (Z.ltb_spec (Z.of_nat i) (Z.of_nat (length lines))); [|lia]. cbn [andb].
+    rewrite exec_seq, (get_ok m c r o vl i 0 sv voff vbeg _ S Hi). fold sb.
+    rewrite exec_seq.
+    replace (exec cx (Datatypes.S fuel) sb_setoff _) with (ONormal (mkst (lst (Z.of_nat i) 0 (VPtr sb 0) (VInt (Z.of_nat first)) vbeg) m)).
+    2:{ open_sb sb_setoff. unfold lst. rewrite Hd. xstep. rewrite eqb_nat, Nat.eqb_sym. unfold first.
+        destruct (Nat.eqb_spec i r0) as [E|E]; xstep.
+        - rewrite chk_I32 by lia. xstep. rewrite (x_uc_chr m sb s _ Hs Hnn HFs Hmax). xstep.
+          subst i. fold s in Hoff0. rewrite (Hoff0 Hi). cbn [chr_val]. xstep. rewrite Nat.eqb_refl. xstep.
+          rewrite Z.sub_0_r, Z.quot_1_r. rewrite wrap_I32_id by lia. reflexivity.
+        - reflexivity. }
+    destruct (fwd_row_ok i r o vl Hd Hi first m c (Datatypes.S fuel) vbeg Hfirst ltac:(lia) Hc S) as (m' & c' & voff' & vbeg' & E & Hc' & S').
+    fold s sb in E, S'. cbv zeta in E, S'. rewrite E. clear E.
+    rewrite (step_ok m' (Z.of_nat i)) by lia. rewrite Hd.
+    rewrite (skipn_nth_cons lines i []) by exact Hi. fold (nthl lines i). fold s. cbn [fwd_rows]. fold first.
+    destruct (fwd_row (fm_of find) s first) as [[oo ll]|] eqn:Er; cbn [is_some b2z cr co cl] in *.
+    - destruct fuel as [|fuel]; [lia|]. rewrite for_exit_found. do 7 eexists. split; [reflexivity|]. split; [exact Hc'|]. split; [reflexivity|exact S'].
+    - replace (Z.of_nat i + 1) with (Z.of_nat (Datatypes.S i)) by lia.
+      destruct (IH (Datatypes.S i) m' c' r o vl fuel (VPtr sb 0) voff' vbeg' ltac:(lia) ltac:(lia) ltac:(lia) Hc' S')
+        as (m2 & c2 & i2 & f2 & sv2 & vo2 & vb2 & E2 & Hc2 & R2).
+      rewrite <- for_eq, E2. destruct (Nat.eqb_spec (Datatypes.S i) r0) as [E|_]; [lia|].
+      do 7 eexists. split; [reflexivity|]. split; [exact Hc2|exact R2].
+  Qed.
+
+  (* backward: row i, then the rows before it, down to row 0 and no further; only the cursor row has the limit *)
+  Lemma bwd_for_ok : dir = -1 ->
+    forall i m c r o vl fuel sv voff vbeg,
+    (i <= r0)%nat -> (i < length lines)%nat -> (i + maxlen lines + 4 < fuel)%nat -> length c = 2%nat -> smem m c r o vl ->
+    exists m' c' i' found' sv' voff' vbeg',
+      exec cx fuel srch_for (mkst (lst (Z.of_nat i) 0 sv voff vbeg) m) = ONormal (mkst (lst i' found' sv' voff' vbeg') m') /\
+      length c' = 2%nat /\
+      match bwd_rows (fm_of find) (rev (firstn (Datatypes.S i) lines)) i (if (i =? r0)%nat then Some o0 else None) with
+      | SFound rr oo ll => found' = 1 /\ smem m' c' (Z.of_nat rr) (Z.of_nat oo) (VInt (Z.of_nat ll))
+      | SNotFound => found' = 0 /\ smem m' c' r o vl
+      | _ => False
+      end.
+  Proof.
+    intros Hd. pose proof Hsm as [Hsm1 _].
+    induction i as [|i IH]; intros m c r o vl fuel sv voff vbeg Hri Hi Hf Hc SM; (destruct fuel as [|fuel]; [lia|]).
+    - (* row 0: the last one *)
+      set (s := nthl lines 0). set (sb := nth 0%nat lbs O).
+      destruct (line_facts m c r o vl 0%nat SM Hi) as (Hs & Hnn & HFs & Hmax & _). fold s sb in Hs, Hnn, HFs, Hmax.
+      rewrite for_eq, exec_for. cbn [eval_opt]. rewrite (for_cond_0 m c r o vl _ _ _ _ SM), truth_b2z.
+      destruct (Z.leb_spec 0 (Z.of_nat 0)); [|lia]. destruct (Z.ltb_spec (Z.of_nat 0) (Z.of_nat (length lines))); [|lia]. cbn [andb].
+      rewrite exec_seq, (get_ok m c r o vl 0%nat 0 sv voff vbeg _ SM Hi). fold sb. rewrite exec_seq.
+      replace (exec cx (Datatypes.S fuel) sb_setoff _) with (ONormal (mkst (lst (Z.of_nat 0) 0 (VPtr sb 0) (VInt (Z.of_nat 0)) vbeg) m))
+        by (open_sb sb_setoff; unfold lst; rewrite Hd; xstep; reflexivity).
+      pose proof (maxlen_ge lines 0%nat) as Hml. fold s in Hml.
+      destruct (bwd_row (fm_of find) (Datatypes.S (length s)) s 0 (if (r0 =? 0)%nat then Some o0 else None) None) as [res|] eqn:Eb.
+      2:{ exfalso. revert Eb. apply bwd_row_fuel; [|lia]. intros k b e Hk. apply (Hwf _ _ _ _ Hk). }
+      destruct (bwd_row_ok 0%nat r o vl Hd Hi _ 0%nat None res m c (Datatypes.S fuel) vbeg Eb ltac:(lia) ltac:(fold s; lia) Hc SM)
+        as (m' & c' & voff' & vbeg' & E & Hc' & S').
+      fold s sb in E, S'. cbn [is_some b2z] in E. rewrite E. clear E.
+      rewrite (step_ok m' (Z.of_nat 0)) by lia. rewrite Hd.
+      rewrite (firstn_S_nth lines 0%nat []) by exact Hi. cbn [firstn app rev]. fold (nthl lines 0). fold s. cbn [bwd_rows].
+      rewrite (Nat.eqb_sym 0%nat r0), Eb.
+      destruct res as [[oo ll]|]; cbn [is_some b2z cr co cl] in *.
+      + destruct fuel as [|fuel]; [lia|]. rewrite <- for_eq, for_exit_found. do 7 eexists. split; [reflexivity|]. split; [exact Hc'|]. split; [reflexivity|exact S'].
+      + destruct fuel as [|fuel]; [lia|]. rewrite <- for_eq, (for_exit_range m' c' r o vl _ _ _ _ _ S') by (cbn; lia).
+        do 7 eexists. split; [reflexivity|]. split; [exact Hc'|]. split; [reflexivity|exact S'].
+    - set (s := nthl lines (Datatypes.S i)). set (sb := nth (Datatypes.S i) lbs O).
+      destruct (line_facts m c r o vl (Datatypes.S i) SM Hi) as (Hs & Hnn & HFs & Hmax & _). fold s sb in Hs, Hnn, HFs, Hmax.
+      rewrite for_eq, exec_for. cbn [eval_opt]. rewrite (for_cond_0 m c r o vl _ _ _ _ SM), truth_b2z.
+      destruct (Z.leb_spec 0 (Z.of_nat (Datatypes.S i))); [|lia].
+      destruct (Z.ltb_spec (Z.of_nat (Datatypes.S i)) (Z.of_nat (length lines))); [|lia]. cbn [andb].
+      rewrite exec_seq, (get_ok m c r o vl (Datatypes.S i) 0 sv voff vbeg _ SM Hi). fold sb. rewrite exec_seq.
+      replace (exec cx (Datatypes.S fuel) sb_setoff _) with (ONormal (mkst (lst (Z.of_nat (Datatypes.S i)) 0 (VPtr sb 0) (VInt (Z.of_nat 0)) vbeg) m))
+        by (open_sb sb_setoff; unfold lst; rewrite Hd; xstep; reflexivity).
+      pose proof (maxlen_ge lines (Datatypes.S i)) as Hml. fold s in Hml.
+      destruct (bwd_row (fm_of find) (Datatypes.S (length s)) s 0 (if (r0 =? Datatypes.S i)%nat then Some o0 else None) None) as [res|] eqn:Eb.
+      2:{ exfalso. revert Eb. apply bwd_row_fuel; [|lia]. intros k b e Hk. apply (Hwf _ _ _ _ Hk). }
+      destruct (bwd_row_ok (Datatypes.S i) r o vl Hd Hi _ 0%nat None res m c (Datatypes.S fuel) vbeg Eb ltac:(lia) ltac:(fold s; lia) Hc SM)
+        as (m' & c' & voff' & vbeg' & E & Hc' & S').
+      fold s sb in E, S'. cbn [is_some b2z] in E. rewrite E. clear E.
+      rewrite (step_ok m' (Z.of_nat (Datatypes.S i))) by lia. rewrite Hd.
+      rewrite (firstn_S_nth lines (Datatypes.S i) []) by exact Hi. rewrite rev_app_distr. cbn [rev app]. fold (nthl lines (Datatypes.S i)). fold s.
+      cbn [bwd_rows]. rewrite (Nat.eqb_sym (Datatypes.S i) r0), Eb.
+      destruct res as [[oo ll]|]; cbn [is_some b2z cr co cl] in *.
+      + destruct fuel as [|fuel]; [lia|]. rewrite <- for_eq, for_exit_found. do 7 eexists. split; [reflexivity|]. split; [exact Hc'|]. split; [reflexivity|exact S'].
+      + replace (Z.of_nat (Datatypes.S i) + -1) with (Z.of_nat i) by lia. cbn [pred].
+        destruct (IH m' c' r o vl fuel (VPtr sb 0) voff' vbeg' ltac:(lia) ltac:(lia) ltac:(lia) Hc' S')
+          as (m2 & c2 & i2 & f2 & sv2 & vo2 & vb2 & E2 & Hc2 & R2).
+        rewrite <- for_eq, E2. destruct (Nat.eqb_spec i r0) as [E|_]; [lia|].
+        do 7 eexists. split; [reflexivity|]. split; [exact Hc2|exact R2].
   Qed.
 End Scan.
